@@ -197,6 +197,13 @@ func (s *Sim) execClient(d Decision) bool {
 			return false
 		}
 		return c.request(op.M, op.P) != nil
+	case "stall":
+		if c == nil || !c.isOpen() {
+			return false
+		}
+		c.stall()
+		s.stat("fault.stall_client", 1)
+		return true
 	case "raw":
 		if c == nil || !c.isOpen() {
 			return false
@@ -542,6 +549,9 @@ func (s *Sim) finish() {
 	if s.gwStopped {
 		s.finishStopped()
 		return
+	}
+	for _, c := range s.Clients {
+		c.resume()
 	}
 	quiescent := s.drain(20000)
 	if !quiescent {
